@@ -8,6 +8,9 @@
 #define SPECTRA_DAVIDSON_SYM_EIGS_SOLVER_H
 
 #include <Eigen/Core>
+#include <algorithm>  // std::max
+#include <cmath>      // std::abs
+#include <limits>     // std::numeric_limits
 
 #include "JDSymEigsBase.h"
 #include "Util/SelectionRule.h"
@@ -82,6 +85,16 @@ public:
         for (Index k = 0; k < this->m_correction_size; k++)
         {
             Vector tmp = eigvals(k) - m_diagonal.array();
+            // The diagonal preconditioner is singular if a Ritz value equals a diagonal entry
+            // (always the case for a search space made of one unit vector). Keep the
+            // denominators away from zero, otherwise the correction is 0/0 or x/0
+            const Scalar scale = std::abs(eigvals(k)) + m_diagonal.cwiseAbs().maxCoeff();
+            const Scalar floor = (std::max)(Eigen::NumTraits<Scalar>::epsilon() * scale, (std::numeric_limits<Scalar>::min)());
+            for (Index i = 0; i < tmp.size(); i++)
+            {
+                if (std::abs(tmp(i)) < floor)
+                    tmp(i) = (tmp(i) < Scalar(0)) ? -floor : floor;
+            }
             correction.col(k) = residues.col(k).array() / tmp.array();
         }
         return correction;
